@@ -208,3 +208,67 @@ func VH_C03_Reuse() {
 	verifrt.Assert(vhInvT(te, M), "bookkeeping consistent after leave + re-seat")
 	verifrt.Reach("end")
 }
+
+// VH_C03_Create: "create-with-players" is the first operation of every history: a table
+// created with arbitrary auto-join players (repeated ids, colliding or out-of-range
+// seats, more players than seats) is either refused or starts in a state satisfying Inv_T
+// with every named player seated exactly once, fixed seats honoured.
+func VH_C03_Create() {
+	M := verifrt.Cfg("M")
+	jn := verifrt.IntRange("create.jn", 0, M+1)
+	seatLo, seatHi := -1, M-1
+	if verifrt.Cfg("badseats") == 1 {
+		seatLo, seatHi = -2, M+1
+	}
+	jps := []JoinPlayer{}
+	for i := 0; i < M+1; i++ {
+		if i < jn {
+			jps = append(jps, JoinPlayer{PlayerID: vhNewIDs[verifrt.IntRangeI("create.pid", i, 0, len(vhNewIDs)-1)], RedeemChips: verifrt.Int64I("create.chips", i), Seat: verifrt.IntRangeI("create.seat", i, seatLo, seatHi)})
+		}
+	}
+	te := NewTableEngine(NewTableEngineOptions(), WithGameBackend(&vhBackend{m: 2, tag: "bk0"})).(*tableEngine)
+	rec := &vhRec{}
+	rec.install(te)
+	mode := CompetitionMode_CT
+	if verifrt.Bool("create.mtt") {
+		mode = CompetitionMode_MTT
+	}
+	t, err := te.CreateTable(TableSetting{TableID: "T1", Meta: TableMeta{CompetitionID: "C1", TableMaxSeatCount: M, TableMinPlayerCount: 2, Rule: CompetitionRule_Default, Mode: mode},
+		Blind: TableBlindState{Level: verifrt.IntRange("create.level", -1, 1), SB: 10, BB: 20}, JoinPlayers: jps})
+	if err != nil {
+		verifrt.Reach("refused")
+		verifrt.Assert(t == nil, "a refused creation returns no table")
+		dup, clash, bad := false, false, false
+		for i := 0; i < len(jps); i++ {
+			if jps[i].Seat < -1 || jps[i].Seat >= M {
+				bad = true
+			}
+			for j := 0; j < i; j++ {
+				if jps[i].PlayerID == jps[j].PlayerID {
+					dup = true
+				}
+				if jps[i].Seat >= 0 && jps[i].Seat == jps[j].Seat {
+					clash = true
+				}
+			}
+		}
+		verifrt.Assert(len(jps) > M || dup || clash || bad, "a creation is refused only for too many players, a repeated id, a seat named twice or a seat outside the table")
+		verifrt.Reach("end")
+		return
+	}
+	verifrt.Reach("accepted")
+	verifrt.Assert(t == te.table && vhInvT(te, M), "a created table starts with seat map, player list and seat manager in agreement")
+	verifrt.Assert(len(te.table.State.PlayerStates) == len(jps), "exactly the named players are seated")
+	for _, j := range jps {
+		cnt, at := 0, -2
+		for _, p := range te.table.State.PlayerStates {
+			if p.PlayerID == j.PlayerID {
+				cnt++
+				at = p.Seat
+			}
+		}
+		verifrt.Assert(cnt == 1, "a player named at creation appears exactly once")
+		verifrt.Assert(j.Seat == -1 || at == j.Seat, "a fixed seat named at creation is honoured")
+	}
+	verifrt.Reach("end")
+}
